@@ -4,6 +4,7 @@
   the computed policy precedes it; the proxy CONNECT is the only plaintext.  Core Lean only.
 -/
 import WS.Lemmas.Connect
+import WS.Spec.TlsPolicy
 namespace WS.Lemmas.TlsOrder
 open WS WS.PyH2 WS.H2 WS.Model.Http WS.Model.Handshake WS.Model.Connect WS.Lemmas.Connect
 
@@ -351,5 +352,41 @@ theorem ordered_split (env : Env) (pre0 tr : List Ev) (h : Ordered env pre0 tr)
   subst hs
   rw [ordered_append] at h
   exact h.2.1
+
+
+/-! ### the executable form of the ordering Spec -/
+
+theorem okAt_imp_okAtB (env : Env) (pol : Str → Option Policy)
+    (hpol : ∀ host p, Model.Tls.sslSocket env.sslopt env.tlsEnv host = .ok p → pol host = some p)
+    (pre : List Ev) (e : Ev) (h : okAt env pre e) : Spec.Tls.okAtB pol pre e = true := by
+  cases e with
+  | io j x =>
+    cases x with
+    | recv n => rfl
+    | write bs =>
+      simp only [Spec.Tls.okAtB, List.all_eq_true]
+      intro e he
+      cases e with
+      | dial j' u =>
+        simp only [Bool.or_eq_true, Bool.not_eq_true', Bool.and_eq_false_imp, beq_iff_eq, List.any_eq_true]
+        by_cases hj : j' = j
+        · subst hj
+          by_cases hs : u.secure = true
+          · right
+            obtain ⟨p, hp, hsp⟩ := h u he hs
+            exact ⟨Ev.wrap j' p true, hp, by simp [hpol _ _ hsp]⟩
+          · left; intro _; simpa using hs
+        · left; intro hc; exact absurd hc hj
+      | _ => rfl
+  | _ => rfl
+
+theorem ordered_imp_orderedB (env : Env) (pol : Str → Option Policy)
+    (hpol : ∀ host p, Model.Tls.sslSocket env.sslopt env.tlsEnv host = .ok p → pol host = some p)
+    (pre l : List Ev) (h : Ordered env pre l) : Spec.Tls.orderedB pol pre l = true := by
+  induction l generalizing pre with
+  | nil => rfl
+  | cons e rest ih =>
+    simp only [Spec.Tls.orderedB, Bool.and_eq_true]
+    exact ⟨okAt_imp_okAtB env pol hpol pre e h.1, ih _ h.2⟩
 
 end WS.Lemmas.TlsOrder
